@@ -65,6 +65,11 @@ var rcurrent *rsim
 
 var installR sync.Once
 
+// InstallR installs Engine R's hook function. Tests that use Engine R call it
+// first thing, before any code under test has run in the process, because the
+// hook variable is deliberately a plain word.
+func InstallR() { installR.Do(func() { verifhooks.SetYield(ryield) }) }
+
 //go:norace
 func (w *RWorker) park(point string) {
 	w.point = point
@@ -135,9 +140,9 @@ func RunHBFree(cfg RConfig, workers []*RWorker) *ROutcome {
 	var pmu sync.Mutex
 	var wg sync.WaitGroup
 	rcurrent = s
-	// The hook function is installed once and never changed again: abandoned
-	// (livelocked) workers have read it, and a later write would be a race.
-	installR.Do(func() { verifhooks.SetYield(ryield) })
+	// The hook function is installed once, before anything else runs, and never
+	// changed again (see InstallR): a later write would race with earlier reads.
+	InstallR()
 	for _, w := range workers {
 		w := w
 		w.state, w.gof, w.gid, w.point = rRunning, 0, 0, ""
